@@ -36,7 +36,10 @@ pub fn build(e: &mut Ent, f: &Force) -> (StepCase, Tag) {
     let mut ccr = f.ccr.unwrap_or_else(|| e.u8());
     let target = e.jump_target();
     let top = (e.upper_byte() >> 24) as u8;
-    let mut frame = e.data_addr(&[Region::Ram, Region::Dram], 4, 2);
+    // 1 frame in 8 at an odd address: the statement says "at SP-4", whatever SP is, and the emulator's memory is
+    // byte-addressed (nothing rounds a stack address - not for the access and not because of how the area is costed)
+    let odd = e.chance(1, 8);
+    let mut frame = e.data_addr(&[Region::Ram, Region::Dram], 4, if odd { 1 } else { 2 });
     if frame.abs_diff(target) < 64 {
         frame = if (frame >= 0xffbf20 && frame < 0xffe000) || (frame >= 0x400000 && frame < 0x500000) { frame + 0x400 } else { frame - 0x400 };
     }
